@@ -271,7 +271,7 @@ def unit_worker(tier, pid):
 def unit_master(tier, pid):
     w = sk.make_master_world()
     res = verify_function(w, sk.master_contract(), setup=sk.master_setup, extra_check=sk.master_check)
-    return {'functions': [prop.discharge(res, tier, pid, lambda m, r: {'note': 'see model text'}, replay_native([('cyclic', {}), SWEEP_SMALL]))]}
+    return {'functions': [prop.discharge(res, tier, pid, lambda m, r: {'note': 'see model text'}, replay_native([('cyclic', {}), ('master_error', {}), SWEEP_SMALL]))]}
 
 
 def unit_schedule(tier, pid):
@@ -549,7 +549,7 @@ def rerun_args(tier, seed):
 
 SWEEP_BOUND = ('real Scheduler/QueueScheduling on all DAGs <= 3 tasks with hard/soft edges x outcomes {done, failed, raise, None, not a pair, '
                'bad status, update not a mapping, non-final status} x workers {1, 2}; all 1- and 2-task cases + a seeded sample of the 3-task cases in '
-               'the quick tier, every case in the thorough tier; cyclic graphs of 1-3 tasks; hang watchdog 6 s; C01/C02/C03 oracles')
+               'the quick tier, every case in the thorough tier; cyclic graphs of 1-3 tasks; a second schedule() on the same backend; a task that schedules an inner graph on its own backend; an error raised by the master after the workers were started; hang watchdog 6 s; C01/C02/C03 oracles')
 PARK_BOUND = ('graph A -> B (hard and soft) + independent C, 3 workers; the worker of A is parked (threading.settrace) before every executed line '
               'of WorkerThread.run after task.do(); one preemption per run; B must read A complete whenever it starts')
 RERUN_BOUND = ('two-run histories on all DAGs <= 3 tasks, first-run outcomes {done, failed}^n, between the runs each task keeps / loses its persisted '
